@@ -110,7 +110,7 @@ class Session:
             r = self.h.cmd('PEER ' + R.encode_message(m).hex())
             kv = parse_kv(r)
             log = kv.get('log', '-')
-            calls = [c for c in log.split(';') if c] if log != '-' else []
+            calls = [c for c in log.split(';') if c.startswith('h:')] if log != '-' else []
             err = None
             if kv.get('peer', '-') != '-':
                 msgs, st = R.split_stream(bytes.fromhex(kv['peer']))
@@ -127,8 +127,10 @@ class Session:
                 self.hit('root-on-empty-tree-unjudged')
             elif err != werr:
                 kind = 'root-on-empty-tree' if (p == '/' and not self.reg) else ('%s-instead-of-%s' % ((err or b'none').decode().split('.')[-1], (werr or b'none').decode().split('.')[-1]))
-                out.append(Violation('auto-reply', kind, '%s: call to %s answered %r, model %r (registered: %r)' % (opdesc, p, err, werr, self.reg), None))
-            if len(out) > 3:
+                v = Violation('auto-reply', kind, '%s: call to %s answered %r, model %r (registered: %r)' % (opdesc, p, err, werr, self.reg), None)
+                v.resynced = v.fingerprint in known_fingerprints('C20')     # recorded finding without state effect: keep exploring
+                out.append(v)
+            if len([v for v in out if not v.resynced]) > 3:
                 return
         for p in self.paths + ['/zz']:
             r = self.h.cmd('LIST ' + p)
@@ -160,6 +162,8 @@ class Session:
             self.reg.pop(p, None)
         if not out:
             self.probe(out, repr(op))
+        seen = set()
+        out = [v for v in out if not (v.resynced and (v.fingerprint in seen or seen.add(v.fingerprint)))]
         return out
 
     def key(self):
